@@ -591,6 +591,50 @@ fn oracles(
         }
     }
 
+    // ---- still named: an emitted declaration that uses a blocklisted type names it (by the Rust name the user is to define)
+    {
+        let ident_in = |text: &str, name: &str| -> bool {
+            let b = text.as_bytes();
+            let mut from = 0;
+            while let Some(k) = text[from..].find(name) {
+                let s0 = from + k; let e0 = s0 + name.len();
+                let before = s0 == 0 || !(b[s0 - 1].is_ascii_alphanumeric() || b[s0 - 1] == b'_');
+                let after = e0 >= b.len() || !(b[e0].is_ascii_alphanumeric() || b[e0] == b'_');
+                if before && after { return true; }
+                from = e0;
+            }
+            false
+        };
+        for (u, du) in p.decls.iter().enumerate() {
+            if c.blocked.contains(&u) || c.opaque.contains(&u) || matches!(du.kind, DKind::Template) { continue; }
+            let uname = if c.namespaces_on { du.base.clone() } else { rust_name(u) };
+            // the emitted definition(s) of `u`
+            let texts: Vec<&str> = leaves.iter().filter(|l| !matches!(l.kind, "impl" | "use" | "other") && l.name.as_deref() == Some(uname.as_str())).map(|l| l.text.as_str()).collect();
+            if texts.is_empty() { continue; }
+            for &b in &du.deps {
+                if !c.blocked.contains(&b) || !p.decls[b].kind.is_type() || matches!(p.decls[b].kind, DKind::Template) { continue; }
+                // only uses written in `u`'s own declaration as a base class or a data member (the dependency relation is
+                // transitive through typedefs; methods and function-pointer members are items / types of their own)
+                let member_text: String = if matches!(du.kind, DKind::Struct | DKind::Union | DKind::Class) {
+                    du.text.lines().enumerate().filter(|(k, l)| *k == 0 || !l.contains('(')).map(|(_, l)| l).collect::<Vec<_>>().join("\n")
+                } else { du.text.clone() };
+                if !ident_in(&member_text, &p.decls[b].base) { continue; }
+                let bname = if c.namespaces_on { p.decls[b].base.clone() } else { rust_name(b) };
+                st.bump("still-named-checked");
+                if texts.iter().any(|t| ident_in(t, &bname)) { continue; }
+                // region of known finding `blocklisted_base_not_named` (input-defined): the use is a base-class specifier
+                let as_base = du.text.contains(&format!(": public {}", p.type_ref(b))) || du.text.contains(&format!(": {} {{", p.type_ref(b))) || du.text.contains(&format!(": public {} ", p.decls[b].base));
+                let elsewhere = { let t = member_text.replacen(&format!(": public {}", p.type_ref(b)), "", 1).replacen(&format!(": {} {{", p.type_ref(b)), " {", 1); ident_in(&t, &p.decls[b].base) };
+                if as_base && !elsewhere {
+                    st.known("blocklisted_base_not_named", format!("`{}` derives from the blocklisted `{}`; the emitted `{uname}` does not name `{bname}` (the base is replaced by padding); flags {:?}", p.path(u), p.path(b), c.flags));
+                    continue;
+                }
+                fails.push(Failure { kind: "oracle-still-named", detail: format!("`{}` uses the blocklisted type `{}` but the emitted `{uname}` does not name `{bname}`: {}", p.path(u), p.path(b), &texts[0][..texts[0].len().min(300)]), input: case_json(c) });
+                return;
+            }
+        }
+    }
+
     // ---- never_defined, nested: a named record declared inside a record of a blocklisted *file* is in that file too
     if !c.block.files.is_empty() {
         for &i in &c.blocked {
